@@ -446,6 +446,15 @@ class Engine:
             c[name] = ok
         return c[name]
 
+    def expand(self, t, depth=3):
+        """t with the results of accessor calls replaced by what they compute"""
+        for _ in range(depth):
+            m = {x: self.definitions[x] for x in subterms(t) if x in self.definitions}
+            if not m:
+                break
+            t = substitute(t, m)
+        return t
+
     def definition_facts(self, lins):
         """equalities result == value for the accessor calls whose results occur in the given linear forms"""
         out, seen, todo = [], set(), list(lins)
